@@ -246,3 +246,47 @@ func Random(seed int64, n, length, nkey, nval int) [][]Op {
 	}
 	return seqs
 }
+
+// Enumerate returns EVERY sequence of exactly `depth` operations on key 1 drawn from one overlay's operations
+// (write value 2, delete, cancel-set, cancel-delete, read), for both overlays, from both starting points (key 1 absent /
+// committed with value 1), followed by an observation tail: reads through both overlays, a commit, reads of the
+// committed tree and of both versions.
+func Enumerate(depth int) [][]Op {
+	cons := []Op{{Op: "SetFinality", K: 1, V: 2}, {Op: "DelFinality", K: 1}, {Op: "CancelSetFinality", K: 1}, {Op: "CancelDelFinality", K: 1}, {Op: "GetFinality", K: 1}}
+	mem := []Op{{Op: "Set", K: 1, V: 2}, {Op: "Del", K: 1}, {Op: "CancelSet", K: 1}, {Op: "CancelDel", K: 1}, {Op: "Get", K: 1}}
+	tail := []Op{{Op: "GetFinality", K: 1}, {Op: "Get", K: 1}, {Op: "Read", K: 1}, {Op: "Commit"}, {Op: "GetFinality", K: 1}, {Op: "Get", K: 1},
+		{Op: "Read", K: 1}, {Op: "IterateAll"}, {Op: "ReadAt", K: 1, V: 1}, {Op: "ReadAt", K: 1, V: 2}, {Op: "Reopen"}, {Op: "Read", K: 1}, {Op: "GetFinality", K: 1}}
+	var out [][]Op
+	for _, alphabet := range [][]Op{cons, mem} {
+		for _, present := range []bool{false, true} {
+			idx := make([]int, depth)
+			for {
+				var seq []Op
+				if present {
+					seq = append(seq, Op{Op: "SetFinality", K: 1, V: 1}, Op{Op: "Commit"})
+				} else {
+					seq = append(seq, Op{Op: "SetFinality", K: 2, V: 1}, Op{Op: "Commit"})
+				}
+				for _, i := range idx {
+					seq = append(seq, alphabet[i])
+				}
+				seq = append(seq, tail...)
+				out = append(out, seq)
+				// next index vector
+				j := depth - 1
+				for j >= 0 {
+					idx[j]++
+					if idx[j] < len(alphabet) {
+						break
+					}
+					idx[j] = 0
+					j--
+				}
+				if j < 0 {
+					break
+				}
+			}
+		}
+	}
+	return out
+}
